@@ -238,7 +238,10 @@ func (r *Run) bytesStrEq(x, y symBytesStr) value {
 func load(T types.Type, addr *value) value {
 	switch T := T.Underlying().(type) {
 	case *types.Struct:
-		v := (*addr).(structure)
+		v, ok := (*addr).(structure)
+		if !ok {
+			return *addr // an engine-native value of struct type (reflect.Value)
+		}
 		a := make(structure, len(v))
 		for i := range a {
 			a[i] = load(T.Field(i).Type(), &v[i])
@@ -269,7 +272,11 @@ func store(T types.Type, addr *value, v value) {
 			*addr = v
 			return
 		}
-		rhs := v.(structure)
+		rhs, ok := v.(structure)
+		if !ok {
+			*addr = v // an engine-native value of struct type (reflect.Value)
+			return
+		}
 		for i := range lhs {
 			store(T.Field(i).Type(), &lhs[i], rhs[i])
 		}
